@@ -406,6 +406,48 @@ def run(ctx):
         res.find(key, add_i.loc(m["sp"]), "the catch-all arm of add_instruction stores into %s, not the body" % catch_all)
     res.count("routed_variants", nroutes, floor=15)
     res.count("program_sections", len(sec_to), floor=8)
+    # R4 (K6) who may add to a CalibrationSet: the backing vector is grown or overwritten only by `replace` (which looks the
+    #    signature up in the whole current contents first) - so "each keyed definition keeps only its last value" holds for
+    #    every way of filling the set (insert, extend, From<Vec<_>>)
+    ADDING = {"push", "insert", "extend", "append", "index_mut", "iter_mut", "extend_from_slice", "as_mut_slice", "get_mut", "swap", "splice"}
+    writers_ = {}
+    for g in db.fns:
+        if "::calibration_set::" not in g.path and not g.path.startswith("<quil_rs::program::calibration_set::"):
+            continue
+        hits = []
+        for bb, t, c in g.calls():
+            if c and c.get("name") in ADDING and t["args"]:
+                e = fn_expr_operand(g, t["args"][0])
+                ns = []
+                walk_expr(e, ns.append)
+                if any(n[0] == "field" and n[2] == "data" for n in ns):
+                    hits.append(c.get("name"))
+        if hits:
+            writers_[g.path] = hits
+    key = "K6|calibration-set-writers"
+    allowed = [p_ for p_ in writers_ if p_.endswith("::replace")]
+    others = {p_: h for p_, h in writers_.items() if not p_.endswith("::replace")}
+    ok = len(allowed) == 1 and not others
+    res.site(key, True, {"functions_adding_to_data": {k_.rsplit("::", 2)[-1] if "::" in k_ else k_: v for k_, v in writers_.items()}, "verdict": "ok" if ok else "VIOLATION"})
+    if not ok:
+        res.find(key, "-", "CalibrationSet's backing vector is added to or overwritten outside `replace`: %s; a value whose signature is already present (e.g. earlier in the same batch) is then kept twice" % (others or "no `replace` found"), "Calibrations built from a Vec with two DEFCALs of the same signature list both")
+    # R5 (K7) every section of the two listings is appended unconditionally
+    for h in (to_i, into_i):
+        for bb, t, c in h.calls():
+            if c and c.get("name") in ("extend", "push", "append") and t["args"]:
+                recv = fn_expr_operand(h, t["args"][0])
+                if not (recv[0] == "call" and ("Vec" in recv[1])):
+                    continue
+                cds = [sb for sb, tgt in h.control_deps(bb, transitive=False)]
+                key = "K7|listing-section-unconditional|%s|bb-independent" % h.name
+                if cds:
+                    conds = []
+                    for sb in cds:
+                        tt = h.blocks[sb]["t"]
+                        conds.append(str(fn_expr_operand(h, tt["d"])[:2])[:70] if tt["k"] == "switch" else tt["k"])
+                    res.site(key, True, {"conditions": conds, "verdict": "VIOLATION"})
+                    res.find(key, h.loc(t.get("sp")), "Program::%s appends one of its sections only under a condition (%s); the other listing appends it always" % (h.name, conds), "a program with only DEFCAL MEASURE definitions loses them in into_instructions but not in to_instructions")
+    res.site("K7|listing-section-unconditional", True, {"verdict": "checked"})
     res.explanation = (
         "Sibling agreement (K4) between the copying and consuming listings of Program and of every local type with both methods (%d pairs): "
         "each is abstracted to the ordered list of `self` stores appended to the result (provenance of every extend/push argument) and the lists must be equal; "
